@@ -14,7 +14,9 @@ mod verif_c20 {
     let ins = match cb { Some(second) => [first, second, y], None => [first, x, y] };
     let (_op, len, _clocks) = decoder::decode(&ins);
     vassert!(len >= 1 && len <= 3, "C20.dis.decoder_length_range");
-    // layout A: op first, then NOP
+    // layout A (thorough tier): op first, then NOP
+    #[cfg(verif_thorough)]
+    {
     let mut a = [0u8; 4];
     let mut i = 0;
     while i < len { a[i] = ins[i]; i += 1; }
@@ -28,6 +30,7 @@ mod verif_c20 {
       while k < len { vassert!(out[0].bytes[k] == ins[k], "C20.dis.bytes"); k += 1; }
     }
     core::mem::forget(out);
+    }
     // layout B: NOP first, op last
     let mut b = [0u8; 4];
     b[0] = 0x00;
